@@ -4,7 +4,7 @@
 
    Model  Model/C10Machine.v: [step : state -> op -> state * answer], the transliteration of the caches
           (_cu_offsets_map/_cu_cache, _diemap/_dielist, _abbrevtable_cache, _linetable_cache,
-          _section_name_map, _symbol_name_map, _num_tags, _decoded_entries, CFIEntry._decoded_table), the object heaps with
+          _section_name_map, _symbol_name_map, _num_tags, _decoded_entries, CFIEntry._decoded_table, _type_units_by_sig), the object heaps with
           _parent/_terminator, ONE cursor per stream, and the frames of live generators.
    Spec   Spec/C10Spec.v: [query_spec F o], a function of the file and the query only, and [spec_step]
           over iterator positions alone (no caches, no cursors, no objects).
@@ -227,4 +227,13 @@ Example C10_ex_iter_agrees :
   let s := fst (run (parsers_of ex_file0) 40 (init_state 2) [NewIterCUs 0; NewIterSections 1; Next 1]) in
   snd (step (parsers_of ex_file0) 40 s (Next 0)) = AUnit 0 100 /\
   snd (step (parsers_of ex_file0) 40 s (Next 1)) = AVals [2; 401].
+Proof. vm_compute. split; reflexivity. Qed.
+
+(* type units: a partially consumed iter_TUs() generator does not disturb the signature index, and the other way round *)
+Example C10_ex_type_units :
+  let h := [NewIterTUs 0; Next 0; TUBySig 7002; Next 0; TUBySig 7001; TUBySig 9; Next 0; TUBySig 7002] in
+  forallb (op_ok ex_file0) h = true /\
+  snd (run (parsers_of ex_file0) 40 (init_state 2) h) =
+  [ADone; AVals [0; 0; 600]; AVals [0; 12; 601]; AVals [0; 12; 601]; AVals [0; 0; 600]; AErr (EPy "KeyError"); AStop;
+   AVals [0; 12; 601]].
 Proof. vm_compute. split; reflexivity. Qed.
